@@ -138,6 +138,13 @@ def rules(t):
             r.site(s, fld)
             if not t.mentions_call(t.field_of_aggr(s, fld), r"generate_random_bytes$"): r.bad(fld, s, f"{fld} is not freshly random")
     out.append(r)
+    r = RuleResult("C17.c4", "nonce counters only ever advance by one: every store to a sequence counter outside a constructor is `counter + 1` (no reset, e.g. on failover)", floor=9)
+    for adt, fld in ((NS, "global_sequence"), (NS, "challenge_sequence"), (CONN, "sequence"), (NC, "sequence")):
+        for s_ in t.stores(adt, fld):
+            r.site(s_, f"{adt.split('::')[-1]}.{fld}")
+            if not re.search(re.escape(fld) + r" AddWithOverflow 1\)\.0$", fmt(t.stored(s_))): r.bad(f"{s_.fn.path}|{fld}|not-increment", s_, f"{adt.split('::')[-1]}.{fld} is assigned {fmt(t.stored(s_))[-50:]}: the counter is the AEAD nonce, resetting or jumping it reuses nonces under the same key")
+    out.append(r)
+    out.append(shared.aead_open_rule(t, "C17.e"))
     return out
 
 def is_protocol(o):
